@@ -91,6 +91,11 @@ func Generate(ctx context.Context, wd string, env []string, patterns []string, o
 	generated := make([]GenerateResult, len(pkgs))
 	for i, pkg := range pkgs {
 		generated[i].PkgPath = pkg.PkgPath
+		if len(pkg.GoFiles) == 0 {
+			// Nothing to analyse and nowhere to write, for example a
+			// directory that only has test files.
+			continue
+		}
 		outDir, err := detectOutputDir(pkg.GoFiles)
 		if err != nil {
 			generated[i].Errs = append(generated[i].Errs, err)
